@@ -138,7 +138,7 @@ def classify_events(ctx, scope):
                 evs.append((bi, "observe", "captured by closure"))
         pl = st["place"]
         if pl["p"]:
-            e = S.strip_refs(sy.place(pl))
+            e = S.strip_refs(sy.dest(pl))
             if e == key:
                 evs.append((bi, "reset", "assigned a fresh value"))
     return evs
@@ -296,7 +296,7 @@ def matrix_rules(ctx, rule):
     size_asg = []
     for bi, si, st in b.iter_stmts():
         if st["k"] == "assign" and st["place"]["p"] and not b.blocks[bi]["cleanup"]:
-            pth = U.field_path(sy.place(st["place"]))
+            pth = U.field_path(sy.dest(st["place"]))
             if pth and pth[0] == "arg" and pth[1] == 1 and pth[2] == ["size"]:
                 size_asg.append((bi, st, sy.rvalue(st["rv"])))
     key = "growth:resize+size+init"
@@ -424,7 +424,7 @@ def memo_coherence(ctx, rule, skip_fill=None):
             for bi, si, st in b.iter_stmts():
                 if st["k"] != "assign" or b.blocks[bi]["cleanup"] or not st["place"]["p"]:
                     continue
-                ch, root = field_chain(sy.place(st["place"]))
+                ch, root = field_chain(sy.dest(st["place"]))
                 if ch and ch[-1] == (sid, memo) and st["place"]["ty"].startswith("std::option::Option<"):
                     v = sy.rvalue(st["rv"])
                     if v[0] == "agg" and v[2].endswith("Option::Some"):
@@ -503,7 +503,7 @@ def must_reset(ctx, body, cell, visiting):
     for bi, si, st in body.iter_stmts():
         if st["k"] != "assign" or body.blocks[bi]["cleanup"] or not st["place"]["p"]:
             continue
-        ch, root = field_chain(sy.place(st["place"]))
+        ch, root = field_chain(sy.dest(st["place"]))
         if ch and ch[-1] == cell:
             v = sy.rvalue(st["rv"])
             fresh = (v[0] == "agg" and v[2].endswith("Option::None")) or (v[0] == "call" and v[1].endswith(("RefCell::new", "Default::default")))
@@ -553,7 +553,7 @@ def _param_must_reset(ctx, body, pi):
     blocks = set()
     for bi, si, st in body.iter_stmts():
         if st["k"] == "assign" and st["place"]["p"] and not body.blocks[bi]["cleanup"]:
-            ch, root = field_chain(sy.place(st["place"]))
+            ch, root = field_chain(sy.dest(st["place"]))
             if not ch and root == ("arg", pi):
                 v = sy.rvalue(st["rv"])
                 if (v[0] == "agg" and v[2].endswith("Option::None")) or (v[0] == "call" and v[1].endswith("RefCell::new")):
@@ -743,7 +743,7 @@ def value_never_leaves(ctx, bodies, is_state):
                     if pl["l"] == 0:
                         new_getters.add(b.id)
                     continue            # a temporary: its uses are seen through symbolic resolution
-                dest = S.strip_refs(sy.place(pl))
+                dest = S.strip_refs(sy.dest(pl))
                 if mentions(dest) or is_state(dest):
                     continue            # written back into the same state
                 leak = leak or "%s stores a value derived from it in %s" % (b.id, S.show(dest, b)[:60])
